@@ -11,6 +11,18 @@ CHECKS = {
  "C06": ("exhaustive enumeration of source texts (token sequences, character strings, mutations of valid programs) executed on the real Compile/Eval/TryEval/Dump/DumpTable under a panic fence and hang watchdog",
          "Every token sequence <=5 (thorough 6) over 22 tokens and every character string <=5 (7) over 17 characters x {prefix,infix} x {undefined variables off,on}, every truncation/deletion/duplication/swap of every valid corpus program, scaled shapes; every text that compiles is dumped and evaluated (Eval, TryEval cached/uncached) under bindings of every supported type in all event modes; oracle: no panic, one of (program,error), LOOP positions strictly increase.",
          "Texts longer than the bounds are covered only through mutations of valid programs and a handful of scaled shapes; hangs are caught by a 180 s no-progress watchdog.", "4 C06"),
+ "C02": ("stateless exhaustive exploration of programs x all 16 optimisation subsets x cost maps x directive spellings x bindings on the real compiler/evaluator, cross-configuration and reference (R1/R3) agreement",
+         "Every CORE <=7 / RICH <=6 program (thorough 7/7) incl. alias spellings under the 16 subsets x events off/on, 8 extreme cost maps on the Reordering subsets and 5 in-source directive spellings per subset (Dump+DumpTable must equal the programmatic compilation, caller options untouched), evaluated under every value binding: all value-returning configurations agree; total-evaluation success forces that value everywhere; Reordering-off configurations return the left-to-right value whenever it exists.",
+         "Small-scope hypothesis; cost maps from a fixed family of extreme maps; bindings over {true,false},{0,1}.", "4 C02"),
+ "C03": ("stateless exhaustive exploration; ordered effect trace of the real evaluator (fetcher Get + registered operator calls) compared with reference evaluation of the parsed Dump tree",
+         "Every CORE <=7 / RICH <=6 program (thorough 8/7) incl. alias spellings x 16 subsets x events off/on x every binding incl. fetch failures: the ordered log of fetches and registered-operator calls (arguments, results, failures) equals left-to-right short-circuit evaluation of the tree Dump shows; only the FastEvaluation two-leaf pairing is tolerated (all per-node choices enumerated).",
+         "Independent Dump reader trusted on plain literals; effects of builtin operators are not observable (they are pure), so only fetches and registered operators are traced.", "4 C03"),
+ "C04": ("stateless exhaustive exploration of programs x configurations x availability splits x assignments; TryEval answers checked against a table of real Eval results over every completion",
+         "Every CORE <=7 / RICH <=6 program (thorough +ill-typed completions) x 16 subsets x events off/on x all 2^k availability splits x all assignments: a definite TryEval answer equals Eval on every completion where Eval succeeds, equals Eval when everything is available, is stable under larger splits, and no unavailable variable is ever fetched.",
+         "Small-scope hypothesis; value domains {true,false},{0,1} (+ one ill-typed value per variable in thorough).", "4 C04"),
+ "C05": ("stateless exhaustive exploration against a strong-Kleene three-valued reference evaluator (R2)",
+         "Same space as C04 restricted to failure-free pairs: whenever Kleene evaluation is definite TryEval returns exactly that value; otherwise DNE (or an Eval-confirmed value), never an error; TryEvalBool mirrors with ErrDNE.",
+         "Small-scope hypothesis; R2 is the reference three-valued semantics.", "4 C05"),
 }
 
 NOT_YET = {}
